@@ -13,6 +13,10 @@ Property text ↔ theorems:
           `steer_only_from_candidates` (every id in `used_sources` is such a candidate)
   "processes each source's measurements in the order they were produced"
         → `fifo_order` (handled ++ still-queued = sent, as lists) and `per_source_order`
+        → `message_always_stored` (whatever the time stamps of OTHER sources: after a registered source's
+          measurement is handled, the controller holds THAT measurement for the source — also when `update_clock`
+          returns early because another source's snapshot is ahead in time; so a later estimate never uses a
+          superseded measurement of the source) and `ahead_means_no_clock_call`
   "ignores data arriving for a source after its removal"
         → `after_removal_ignored` (a measurement or usability report for an id whose history says "not
           registered" changes nothing and issues no clock call)
@@ -52,7 +56,7 @@ theorem candidates_registered_usable (cfg : Cfg) (evs : List Ev) (id : Id) :
     registered (never added, or removed and not re-added) leaves the controller unchanged and issues nothing. -/
 theorem after_removal_ignored (cfg : Cfg) (evs : List Ev) (id : Id)
     (hun : specOf id (history evs) = none) :
-    (∀ snap vals steer, dispatch cfg (ctrlAfter cfg evs) id (.source snap vals steer) =
+    (∀ snap t vals steer, dispatch cfg (ctrlAfter cfg evs) id (.source snap t vals steer) =
         (ctrlAfter cfg evs, .ok [] none)) ∧
     (∀ b k, lookup (dispatch cfg (ctrlAfter cfg evs) id (.usability b)).1.srcs k = lookup (ctrlAfter cfg evs).srcs k) ∧
     (∀ b, (dispatch cfg (ctrlAfter cfg evs) id (.usability b)).2 = .ok [] none) := by
@@ -63,7 +67,7 @@ theorem after_removal_ignored (cfg : Cfg) (evs : List Ev) (id : Id)
     | none => rfl
     | some e => rw [h] at this; simp [absEntry] at this
   refine ⟨?_, ?_, ?_⟩
-  · intro snap vals steer
+  · intro snap t vals steer
     simp only [dispatch, sourceMessage, hl]
   · intro b k
     simp only [dispatch, sourceUpdate, lookup_modify]
@@ -114,18 +118,53 @@ theorem steer_only_from_candidates (cfg : Cfg) (steer : List String) (c c' : Ctr
       obtain ⟨p, hp, rfl⟩ := List.mem_map.mp hmem
       exact ⟨p.2, by rw [hidx p hp]; exact hp⟩
 
+/-- **C37.message_always_stored** — for every event history and every registered id: handling a measurement
+    (stamp `t`) of that id leaves the controller holding a snapshot with stamp `t` for it, with the usable flag
+    untouched; if another stored snapshot is ahead of `t` (the early return of `update_clock`) it is exactly the
+    message's snapshot.  Measurements of one source therefore take effect in the order they are handled (= the
+    order they were produced, `per_source_order`), independently of how other sources' time stamps interleave. -/
+theorem message_always_stored (cfg : Cfg) (evs : List Ev) (id : Id) (snap : Cand) (t : Nat)
+    (vals : List (Id × Cand)) (steer : List String) (e : Entry)
+    (h : lookup (ctrlAfter cfg evs).srcs id = some e) :
+    ∃ e', lookup (dispatch cfg (ctrlAfter cfg evs) id (.source snap t vals steer)).1.srcs id = some e' ∧
+      e'.stamp = t ∧ e'.snap.isSome = true ∧ e'.usable = e.usable ∧
+      (ahead (storeMsg (ctrlAfter cfg evs).srcs id snap t) t = true → e'.snap = some snap) :=
+  sourceMessage_stores cfg (ctrlAfter cfg evs) id snap t vals steer e h
+
+/-- **C37.ahead_means_no_clock_call** — when another stored snapshot is ahead of the message's time the message
+    is stored but nothing is issued (no clock call, no `used_sources`). -/
+theorem ahead_means_no_clock_call (cfg : Cfg) (c : Ctrl) (id : Id) (snap : Cand) (t : Nat)
+    (vals : List (Id × Cand)) (steer : List String)
+    (ha : ahead (storeMsg c.srcs id snap t) t = true) :
+    (sourceMessage cfg c id snap t vals steer).2 = .ok [] none := by
+  unfold sourceMessage
+  split
+  · rfl
+  · simp [ha]
+
 /-! #### non-vacuity -/
 
 private def snap0 : Cand := { idx := 1, offset := F64.zero, var := F64.zero, delay := F64.zero, periodic := false, leap := .noWarning }
 private def cfg0 : Cfg := { minAgree := 1, wStat := F64.one, wDelay := F64.one, maxUnc := F64.one }
 
 /-- registered, reported, usable — then removed: the history says so -/
-example : specOf 1 (history [.add 1, .send 1 (.usability true), .send 1 (.source snap0 [] []), .recv, .recv])
+example : specOf 1 (history [.add 1, .send 1 (.usability true), .send 1 (.source snap0 7 [] []), .recv, .recv])
     = some (true, true) := by decide
-example : specOf 1 (history [.add 1, .send 1 (.usability true), .send 1 .dropped, .send 1 (.source snap0 [] []),
+example : specOf 1 (history [.add 1, .send 1 (.usability true), .send 1 .dropped, .send 1 (.source snap0 7 [] []),
     .recv, .recv, .recv]) = none := by decide
 /-- a message still queued is not part of the history: usable only after the loop handled the report -/
 example : specOf 1 (history [.add 1, .send 1 (.usability true)]) = some (false, false) := by decide
+
+/-- B (id 2) is ahead at time 20; A's (id 1) late message stamped 10 with a NEW value is still stored -/
+example :
+    let snapB : Cand := { snap0 with idx := 2 }
+    let snapA' : Cand := { snap0 with idx := 1, delay := F64.one }
+    let c : Ctrl := { srcs := [(2, { snap := some snapB, usable := true, stamp := 20, time := 20 }),
+                               (1, { snap := some snap0, usable := true, stamp := 5, time := 20 })],
+                      leap := .unknown, inStartup := false }
+    ahead (storeMsg c.srcs 1 snapA' 10) 10 = true ∧
+    (lookup (dispatch cfg0 c 1 (.source snapA' 10 [] [])).1.srcs 1).map (fun e => (e.stamp, e.snap)) =
+      some (10, some snapA') := by decide
 
 end NtpVerif.C37
 
@@ -135,3 +174,5 @@ end NtpVerif.C37
 #print axioms NtpVerif.C37.fifo_order
 #print axioms NtpVerif.C37.per_source_order
 #print axioms NtpVerif.C37.steer_only_from_candidates
+#print axioms NtpVerif.C37.message_always_stored
+#print axioms NtpVerif.C37.ahead_means_no_clock_call
